@@ -536,9 +536,15 @@ pub fn gen_dates(src: &mut Src, o: &GdsGenOpts) -> [i16; 12] {
 }
 pub fn gen_lib(src: &mut Src, o: &GdsGenOpts) -> (MLib, bool) {
     let mut big = false;
-    let name = gen_string(src, o);
+    // (names go through the same record-size limit as any other string: the library's own name included)
+    let name = if src.prob(1, 8) { gen_big_string(src, o, &mut big) } else { gen_string(src, o) };
     let version = *src.pick(&[3i16, 5, 6, 7, 600, 0, -1, 32767]);
-    let dates = gen_dates(src, o);
+    let mut dates = gen_dates(src, o);
+    // a stamp of all zeros (time-stamping switched off), on the library or on a structure
+    if src.prob(1, 12) {
+        let h = if src.bool() { 0 } else { 6 };
+        dates[h..h + 6].copy_from_slice(&[0; 6]);
+    }
     let units = (gen_real(src), gen_real(src));
     let ns = src.usize_in(0, o.max_structs);
     let mut structs: Vec<MStruct> = vec![];
@@ -547,9 +553,14 @@ pub fn gen_lib(src: &mut Src, o: &GdsGenOpts) -> (MLib, bool) {
         let sname = match src.weighted(&[12, 1, 1]) {
             1 if !structs.is_empty() => structs[src.index(structs.len())].name.clone(),
             2 => name.clone(),
+            _ if src.prob(1, 12) => gen_big_string(src, o, &mut big),
             _ => gen_string(src, o),
         };
         let mut sdates = gen_dates(src, o);
+        if src.prob(1, 12) {
+            let h = if src.bool() { 0 } else { 6 };
+            sdates[h..h + 6].copy_from_slice(&[0; 6]);
+        }
         if src.prob(1, 8) {
             sdates = dates;
         } else if src.prob(1, 8) {
